@@ -1,0 +1,25 @@
+//go:build !verif
+
+// Package verifhook provides points at which a simulation harness can observe
+// or perturb rqlite (crash images, injected I/O errors, scheduling yields).
+// Without the "verif" build tag every function is an empty no-op.
+package verifhook
+
+// Enabled reports whether hooks are compiled in.
+const Enabled = false
+
+// Hit marks a named point. It always returns nil in normal builds.
+func Hit(point string) error { return nil }
+
+// Yield marks a point where a cooperative scheduler may switch tasks.
+func Yield(point string) {}
+
+// Note reports an event (lock acquired/released, reader count ...) to the harness.
+func Note(point string, v int64) {}
+
+// DirSynced reports that a directory has been fsynced.
+func DirSynced(dir string) {}
+
+// Fatal gives the harness the chance to handle a deliberate process exit.
+// It returns false in normal builds, meaning the caller must exit itself.
+func Fatal(point string, err error) bool { return false }
